@@ -181,10 +181,14 @@ class NexusFitter(object):
         self._fixed_pars.pop(name, None)
 
     def limit_parameter(self, name, limits):
+        if name not in self.parameters_to_fit:
+            raise ValueError("Cannot limit parameter: Unknown fit parameter: %r!" % (name,))
         self._minimizer.limit(name, limits)
         self._limited_pars.update({name: limits})
 
     def unlimit_parameter(self, name):
+        if name not in self.parameters_to_fit:
+            raise ValueError("Cannot unlimit parameter: Unknown fit parameter: %r!" % (name,))
         self._minimizer.unlimit(name)
         self._limited_pars.pop(name, None)
 
